@@ -89,9 +89,10 @@ def symmetric_keys(fn, label, expect_key=None):
         req = "both operands of `%s %s %s` are the same function of their argument" % (fmt_term(l), op, fmt_term(r))
         if mirrored == l:
             k, inner = key_of(l, a)
-            if expect_key and l[0] != "size" and k is not None and k.split("::")[-1] != expect_key:
+            is_elem = any(st[0] == "idx" and st[1] == a for st in subterms(l))
+            if expect_key and is_elem and (k is None or k.split("::")[-1] != expect_key):
                 out.append(bad("R-SIB", inst, fn.loc(nd["id"]), fn.qn, "elements are compared through %s" % expect_key,
-                               "key function is %s" % k))
+                               "elements are compared as %s" % fmt_term(l)))
             else:
                 out.append(ok("R-SIB", inst, fn.loc(nd["id"]), fn.qn, req, "mirror image under parameter renaming"))
         else:
